@@ -20,13 +20,7 @@ def descs():
     return _D
 
 
-def decode(enum, v):
-    """the documented decoding of an enum-typed integer"""
-    if enum.bitfield:
-        names = [n for n, val in enum.entries if val & v]
-        return names or ['(none)']
-    names = [n for n, val in enum.entries if val == v]
-    return names or ['INVALID ENUM VALUE']
+decode = protoxml.decode
 
 
 def dedup_entries(enum):
@@ -37,17 +31,7 @@ def dedup_entries(enum):
     return list(seen.items())
 
 
-def enum_candidates(iface_cand, path, winners):
-    """enums an enum attribute can denote: `name` in the same description, or `iface.name` in any
-    maximal-version description of the other interface"""
-    parts = path.split('.')
-    if len(parts) == 1:
-        e = iface_cand.enums.get(parts[0])
-        return [e] if e is not None else []
-    other = winners.get(parts[-2])
-    if other is None:
-        return []
-    return [c.enums[parts[-1]] for c in other[0] if parts[-1] in c.enums]
+enum_candidates = protoxml.enum_candidates
 
 
 def test_values(enum):
